@@ -4,57 +4,57 @@ from .runner import register
 TRUSTED = ["rustc nightly MIR construction and Instance::try_resolve", "vp-driver fact extraction (coverage assertion: every fn/method/closure body present)",
            "the Python engine (CFG, dominance, terms, call graph)", "reviewed tables under /verif/tables", "external crates behave as publicly documented"]
 
-register("C10", ["c10", "c10g", "hazards"],
+register("C10", ["c10", "c10g", "hazards", "pins"],
          "Static may-panic analysis. The fact base is rebuilt from /repo's current tree; the resolved call graph (direct calls, class-hierarchy expansion of trait/dyn calls, fn values, closures) is closed from the network runner, bft, engine and executor entry points, every ProtoFmt/ProtoRepr::read, ByteFmt/TextFmt::decode and rpc::Handler impl; every MIR overflow/div-by-zero assert, unwrap/expect, explicit panic, Index call and documented-panic external API in that closure must be machine-discharged, in the reviewed table, or is reported. Decides the 'never panics' clause structurally (over-approximation: a pass means no unreviewed panic-capable instruction is reachable); does not execute anything.",
          ["panics inside external crates are limited to their documented '# Panics' sections", "stack exhaustion and allocation failure are out of scope", "reviewed table entries are correct"],
          TRUSTED)
 
-register("C03", ["c03", "phase_gate", "hazards"],
+register("C03", ["c03", "phase_gate", "hazards", "pins"],
          "Static dominance analysis over MIR-as-built (before the coroutine transform, so `backup().await?; send()` is a straight path). Decides on ALL paths - hence for every crash point - that each send/sign of a ReplicaCommit/ReplicaTimeout/ReplicaNewView in bft is dominated by the success of the awaited durable write (backup_state -> EngineManager::set_state -> dyn EngineInterface::set_state), that nothing in the persisted set changes between the write and the send, that the vote recorded before the backup is the vote signed, that backup and restore agree field by field, and the phase gate/view monotonicity tables. Does not execute the code; durability of the execution layer's set_state is trusted.",
          ["EngineInterface::set_state is durable and atomic (trusted interface)", "&mut self exclusivity of the replica state machine (Rust borrow rules)"],
          TRUSTED)
 
-register("C05", ["c05", "phase_gate", "hazards"],
+register("C05", ["c05", "phase_gate", "hazards", "pins"],
          "Static guard-table analysis by finite abstraction: for each decision of the replica (certificate adoption, stale-message gates, new-view catch-up, leader check) atoms are declared on types and field names (cmp(msg.view, self.view), held certificate None/Some, cmp of certificate views, self.phase) and for every valuation the CFG of the handler (MIR-as-built) is walked following only consistent edges; the set of valuations reaching the adoption/processing/vote site is compared with the table stated in the property and spec/informal-spec/replica.rs. Plus exact who-may-write sets of the five view-change fields and term checks on emitted justifications. Conformance of every reaction in every reachable state is not decided.",
          ["certificates passed to process_*_qc were verified by the caller (C04.9)", "&mut self exclusivity of the replica"],
          TRUSTED)
 
-register("C08", ["c08", "hazards"],
+register("C08", ["c08", "hazards", "pins"],
          "Static who-may-call / must-pass-through / guard-table analysis of the block store: the only door into the store (BlockStore::try_push, one caller, executed inside the watch's send_if_modified closure) is dominated per Block variant by the successful verification of that very block; the store's fields, constructor and watch mutations have exact caller sets; try_push appends only the next number; update_persisted never shrinks the persisted range and resets queue+cache together; eviction, the single storage writer's selection term, the peer-block number check and the get_block gate are decided as tables/terms on the current MIR. Read-back under arbitrary interleavings with the persistence layer is not decided.",
          ["the EngineInterface implementation stores what it is handed (trusted interface)", "watch::send_if_modified runs its closure under the watch lock (tokio documentation)"],
          TRUSTED)
 
-register("C07", ["c07", "hazards"],
+register("C07", ["c07", "hazards", "pins"],
          "Static term comparison: the return terms of max_faulty_weight / quorum_threshold / subquorum_threshold (MIR, overflow plumbing stripped) are compared with the reference formulas f=(n-1)/5, q=n-f, s=n-3f; an operation census forbids any other arithmetic or cast; the domain n in [1, 2^64-1] is decided from Schedule::new (only constructor, private fields) by guard tables over every loop iteration (no duplicate, weight > 0, checked_add) and the Ok return (non-empty validators and leaders). The inequalities themselves follow from the fixed hand lemma in DESIGN.md section 5 (C07); the checker pins the code to the formulas the lemma is about.",
          ["the lemma in DESIGN.md (integer arithmetic, n >= 1) is correct"],
          TRUSTED)
 
-register("C11", ["c11", "hazards"],
+register("C11", ["c11", "hazards", "pins"],
          "Static analysis of Schedule::view_leader and Schedule::new: may-panic inventory over the call-graph closure (totality), term and guard-table checks that the returned key is indexed through the leaders list built from exactly the leader-flagged validators and that the weighted draw is reduced modulo the very sum the cumulative walk covers (eligible-only), container-kind facts (BTreeMap, no hashed iteration: order independence), an API census of the closure against clock/RNG/environment prefixes (determinism), and the frequency-0 division. Rotation cadence and weight-proportional share are value-level and not decided.",
          ["num_bigint / Keccak256 are deterministic pure functions"],
          TRUSTED)
 
-register("C16", ["c16", "hazards"],
+register("C16", ["c16", "hazards", "pins"],
          "Static guard tables and who-may-call facts: the selection function's full 12-row table (sender, kind, view order) is enumerated on its MIR; the filter term is verify().is_ok(); the prunable channel's send is decided structurally (filtered values never reach the buffer, retain/keep tables, append iff keep, only retain/push_back/pop_front mutate the VecDeque => FIFO among retained); in the replica, cache insertions for commit and timeout votes are admitted only under membership/view/newer-than-last-vote/valid-signature/valid-message (144 valuations each), pruning to active views post-dominates insertion and a formed certificate is removed. The numeric size bound follows from these facts by the argument in DESIGN.md, not computed by the tool.",
          ["tokio watch::send_modify runs the closure under the watch lock"],
          TRUSTED)
 
-register("C12", ["c12", "sigchain_node", "hazards"],
+register("C12", ["c12", "sigchain_node", "hazards", "pins"],
          "Static guard tables, term checks, dominance and who-may-call facts: the four handshake functions are enumerated over genesis/session/signature/(peer) atoms and Ok must be reachable in exactly the all-true row; the session id compared and signed is SessionId(encode(id(<the stream parameter>))) and Stream.id is the noise handshake hash; the identity returned is the key of the very signature that verified; in the four stream runners insert is dominated by handshake success, serving and remove are dominated by insert success, remove post-dominates on normal completion with the same key; the pool's insert/remove closures are enumerated as tables; pool construction terms and the callers of rpc::Service::run are exact sets. Unforgeability of signatures and secrecy of the noise session are cryptographic assumptions.",
          ["ed25519/BLS signature unforgeability and the noise handshake hash binding (snow) hold", "tokio watch runs the guarded closures under its lock"],
          TRUSTED)
 
-register("C04", ["c04", "sigchain", "hazards"],
+register("C04", ["c04", "sigchain", "hazards", "pins"],
          "Static conjunctive guard tables on the verification code itself: for CommitQC::verify, TimeoutQC::verify (per loop iteration and after the loop), CommitQC::add / TimeoutQC::add (sibling rule), FinalBlock::verify and View::verify each check is an atom and the accepting site (signature check whose result is returned, union update, bit/signature mutation, Ok) must be reachable only on the all-checks-passed row; operands are compared as terms (weight of the certificate's own signers vs the same schedule's quorum threshold; keys derived from the same signer bitmap); type-directed obligations generated from the ADTs require every nested vote/certificate field to be verified; in the four bft handlers every state change is dominated by both verifications. Decides the soundness direction ('accepted only if ...') structurally; the completeness direction and the cryptography are not claimed.",
          ["BLS aggregate signature verification (blst) is sound", "Signers::weight sums exactly the set bits' weights (checked as C10 guard obligation)"],
          TRUSTED)
 
-register("C18", ["c18", "sigchain", "hazards"],
+register("C18", ["c18", "sigchain", "hazards", "pins"],
          "Static guard table of ValidatorAddrs::update over every batch entry (duplicate / member / stored / newer / signature atoms; 32 valuations) deciding when an entry is stored, verified, skipped or fails the batch; the all-or-nothing publish is decided structurally (the batch is applied to a local produced by Clone::clone, send_replace is dominated by the batch's success and runs only on Ok(true), no other caller applies a batch); is_newer is compared as a term with the strict lexicographic (version, timestamp) order; exact writer set of the address map; the RPC handler passes the current epoch's schedule. Convergence across nodes follows from the total order and is not computed.",
          ["validator signature unforgeability", "tokio watch lock serialises updates"],
          TRUSTED)
 
-register("C02", ["c02", "c02x", "c04", "sigchain", "hazards"],
+register("C02", ["c02", "c02x", "c04", "sigchain", "hazards", "pins"],
          "Static decision tables and ingredient terms of the re-proposal rule: get_implied_block is enumerated over (justification kind, high vote, high QC, number order) and each outcome site is classified by its return terms; TimeoutQC::high_vote is checked for what it tallies (key = the voted BlockHeader, quantity = Signers::weight, only entries with a vote), the qualifying comparison (>= subquorum_threshold) and uniqueness (exactly one); high_qc is compared with max-by-view over the entries' high QCs; the replica's payload table (vote only for the implied hash, or for a fresh payload after verify_payload succeeded) and the proposer's table are enumerated; certificate verification obligations are imported from C04. The combinatorial safety argument (2f < n-3f) rests on C07 and the hand lemma; multi-view histories are not explored.",
          ["the C07 lemma", "certificates inside accepted messages were verified (C04 rules run with this property)"],
          TRUSTED)
@@ -69,17 +69,17 @@ register("C14", ["c14", "hazards"],
          ["tokio semaphores/channels behave as documented", "ExclusiveLock hands the half back only when the previous Stream is dropped"],
          TRUSTED)
 
-register("C01", ["c01", "c02", "c03", "phase_gate", "c04", "sigchain", "c07", "c08", "hazards"],
+register("C01", ["c01", "c02", "c03", "phase_gate", "c04", "sigchain", "c07", "c08", "hazards", "pins"],
          "Agreement itself (a statement over all schedules, Byzantine behaviours and crash points) is NOT decided by static analysis. This check decides that the four anchored safety mechanisms are intact and wired together on the current MIR: certificate provenance at every adoption site, the commit path (only adopted certificates finalize, block = certificate + hash-keyed cached payload, stored through the verifying engine manager), the vote being for the implied block, plus the imported rule sets: one vote per view and persist-before-send (C03), re-proposal rule (C02), certificate verification (C04), threshold arithmetic (C07), verified append-only store (C08). Breaking any of these breaks agreement; satisfying all of them does not prove it.",
          ["the ChonkyBFT safety argument for the combination of the mechanisms (spec/)", "C07 lemma"],
          TRUSTED)
 
-register("C15", ["c15", "hazards"],
+register("C15", ["c15", "hazards", "pins"],
          "The numeric clause (at most b + T/r + 1 permits per window, arrival-order service under every interleaving) quantifies over runtime values and schedules and is NOT decided. This check decides the structural mechanisms that are necessary for it: acquire reserves permits only after its last cancellation point and under the fair mutex held from lock to reservation; limiter state has exactly three writers and permits are consumed only in Permit::drop after refreshing; every OPEN is preceded by a limiter permit in its iteration; handlers run only in tasks spawned after a stream reservation from a queue of R::INFLIGHT streams, one request per stream; every production server/client is created with the rate of its own RPC kind; a request above the burst never returns; and the deadline arithmetic is pinned to its formulas (start + duration_or_max(refresh*need), quotient and remainder of the same nanosecond count).",
          ["tokio Mutex is FIFO-fair as documented", "the ctx clock is monotone"],
          TRUSTED)
 
-register("C09", ["c09", "hazards"],
+register("C09", ["c09", "hazards", "pins"],
          "The value-level clause decode(encode(v)) == v for every value cannot be decided statically and is NOT claimed. Decided structural necessary conditions: every proto field written by build() is consumed by read() for all ProtoFmt/ProtoRepr impls; no hashed-container iteration order reaches an encoding (found and repaired F8); no narrowing casts in codecs; all hashes/signatures are Keccak256 of the canonical encoding and encode = canonical; the canonicaliser orders fields by tag, rejects repeated singular fields and recurses; code generation is gated by the schema's canonical check; and a census pins the conversions used inside decoders/encoders to a reviewed value-preserving set.",
          ["prost / quick_protobuf encode and decode the wire format correctly", "reviewed conversions in tables/codec_api.json are value preserving"],
          TRUSTED)
@@ -89,12 +89,12 @@ register("C13", ["c13", "hazards"],
          ["snow encrypts/decrypts and authenticates frames as specified (Noise NN, ChaChaPoly)", "AsyncRead/AsyncWrite contracts of the inner stream"],
          TRUSTED)
 
-register("C19", ["c19", "c19w", "c08", "hazards"],
+register("C19", ["c19", "c19w", "c08", "hazards", "pins"],
          "Freedom from lost wake-ups and double hand-over under all interleavings is a concurrent-protocol property that needs a model checker and is NOT decided. Decided structural mechanisms: a request is taken for a peer only after the completed wait for that peer's announced state to contain the lowest pending number, and exactly that number is removed, atomically inside one watch closure, from the state pushed on that very connection; the acceptor returns only an entry it removed itself; the requester's retry table (done -> return, completion dropped -> re-insert, cancelled -> remove) is enumerated; completion is signalled only after the fetched block was queued (number-checked and verified, C08); the fetcher bounds each request by queued/persisted.",
          ["tokio watch/oneshot semantics", "the peer's push_block_store_state handler stores what the peer announced"],
          TRUSTED)
 
-register("C06", ["c06", "c16", "hazards"],
+register("C06", ["c06", "c16", "hazards", "pins"],
          "Progress (a liveness statement over fair suffixes of all schedules) is NOT decided by static analysis. This check decides the presence and wiring of the mechanisms the property's anchors name, as necessary conditions: the replica loop turns an expired receive deadline into a timeout and keeps looping; on every successful path and in every phase the timeout starter re-arms the timer and re-sends ReplicaTimeout and (for view != 0) ReplicaNewView - the retransmission that un-sticks lagging replicas; view 0 bootstraps with a timeout; new-view/commit/timeout handlers start newer views; the view starter publishes the justification to the proposer, broadcasts new-view and resets the deadline; the proposer proposes iff it leads the justified view, bounded by the view timeout; the input queue keeps the freshest vote (C16).",
          ["timeouts keep firing and messages are eventually delivered (the property's own premises)"],
          TRUSTED)
